@@ -438,6 +438,36 @@ def check_C15(ctx):
     cases = [(k, fresh(s)) for k, s in histories(ctx, alpha, setups, rnd, ['uh'], 3 if ctx.quick else 4, 3000 if ctx.quick else 80000, 16 if ctx.quick else 40)]
     n_uh = run_histories(ctx, pool, cases, '', 'uniquehandle-histories',
                          'UniqueHandle<CountPolicy> values, Close and release() logs after every step = model h_step', extra_oracle=uh_oracle)
+    # ---- the same histories over UniqueFileHandle and real descriptors (descriptor 0 first, then 10, 11, ...): every
+    # ::close() the library issues is logged by the harness, descriptors left open are listed at the end
+    def fresh_fd(seq):
+        out, nxt = [], [0] + list(range(10, 60))
+        for op in seq:
+            if op.endswith('@'):
+                out.append(op[:-1] + str(nxt.pop(0)))
+            else:
+                out.append(op)
+        return out
+    fseqs = [fresh_fd(s) for k, s in histories(ctx, alpha, setups, rnd, ['uh'], 2 if ctx.quick else 3, 1500 if ctx.quick else 20000, 16 if ctx.quick else 40)]
+    fl = [','.join(s) for s in fseqs]
+    fo = run_objs(pool, ['ufh ' + l for l in fl])
+    fm = run_driver(pool, ['uh ' + l for l in fl])
+    fbroken = []
+    for l, o, m in zip(fl, fo, fm):
+        line = 'ufh ' + l
+        ctx.count('uniquefilehandle-histories', line)
+        if o.startswith(BADOUT):
+            ctx.violate('memory-error', 'UniqueFileHandle history crashed or tripped a sanitizer: %s -> %s' % (line[:200], o[:300]), {'case': line, 'output': o})
+            continue
+        body, _, leaked = o.rpartition(' leaked=')
+        v = uh_oracle(line, body)
+        if not v and leaked != '-':
+            v = 'descriptor(s) %s were owned by a UniqueFileHandle that was destroyed, closed or assigned over, and are still open' % leaked
+        if v:
+            ctx.violate('lifetime:ufh', 'UniqueFileHandle histories: %s; history: %s' % (v, line[:300]), {'case': line, 'output': o, 'model': m})
+        elif not m.startswith('DRIVER') and body != m:
+            fbroken.append({'case': line, 'hraw': o, 'mraw': m})
+    report_broken(ctx, fbroken, 'uniquefilehandle-histories', 'UniqueFileHandle values, ::close calls and release() results after every step = model h_step')
     # ---- the out-of-band channel: every handle-bearing type of the pool
     tids = [i for i in range(len(pool.types)) if 'handle' in pool.caps[i]]
     nvals = 40 if ctx.quick else 600
